@@ -334,6 +334,20 @@ def run(p: Program, rep: Report, tier: str) -> None:
                 okd = True
     if not okd:
         rep.undecide("R16.4", "delete_cookie does not call set_cookie")
+    else:
+        # ... on EVERY path: a path that returns without emitting the expired cookie (a fast path for a cookie that is only
+        # pending on this response, a guard on the name) leaves a cookie the client already holds alive
+        try:
+            dpaths, _dc, _di = run_paths(p, dc, br, inline=lambda fi: False)
+            quiet = [pa for pa in dpaths if pa.exit == "return" and not any(e.kind == "call" and callee_is(e.a, "set_cookie") for e in pa.events)]
+            if quiet:
+                rep.violation("R16.4", construct(dc, text="a path returns without set_cookie(..., expires=0, max_age=0)"), where(dc),
+                              "delete_cookie has a path that returns without emitting the expired cookie ("
+                              + ("; ".join(quiet[0].fact_text())[:120] or "unconditionally") + "): the client keeps a cookie it received on an earlier response")
+            else:
+                rep.ok("R16.4", f"delete_cookie emits the expired cookie on all {len([pa for pa in dpaths if pa.exit == 'return'])} returning path(s)")
+        except Exception as e_:
+            rep.undecide("R16.4", f"delete_cookie is not analysable ({e_})")
     # ---------------------------------------------------------------- R16.1 the header mapping's constructor (shared rule, sa/props/hdr_common.py)
     from .hdr_common import headers_ctor_passthrough
     for _f in (headers_ctor_passthrough,):
@@ -346,7 +360,7 @@ def run(p: Program, rep: Report, tier: str) -> None:
             else:
                 rep.violation("R16.1", construct(fn_, text=cons), where(fn_, node), msg)
     rep.require_instances("R16.3", 4)
-    rep.require_instances("R16.4", 12)
+    rep.require_instances("R16.4", 13)
     _request_header_values(p, rep)
 
 
